@@ -16,7 +16,7 @@ def add(pid, technique, text, note, engine="hypothesis+enumeration"):
 
 add("C01",
     "property-based testing: Hypothesis-generated score sets/thresholds + exhaustive "
-    "enumeration of small order types, against a counting reference model",
+    "enumeration of small order types and of narrow-integer scores at the ends of their dtype with thresholds beyond, against a counting reference model",
     "Exploration: every generated (scores, thresholds, config, easy counts) case is compared "
     "cell by cell with a brute-force count by the README decision rule; the finite sub-domain "
     "of all order types of <=3+3 scores over 3 values is enumerated completely in the thorough "
@@ -85,7 +85,7 @@ add("C07",
 add("C08",
     "property-based testing: metamorphic relations between pairs of executions (class swap, "
     "negation with flipped score_class, exact and general increasing affine maps) on "
-    "Hypothesis-generated score sets, incl. score types wider than a double",
+    "Hypothesis-generated score sets, incl. score types wider than a double, and an enumerated family of exact affine maps with large offsets for the EER threshold",
     "Exploration: swap() reverses every confusion matrix and exchanges the complementary rates "
     "exactly; negated objects give identical matrices at -t and negated linear thresholds; affine "
     "maps map all returned thresholds (3 methods) and leave matrices, AUC and (tie-free) EER "
@@ -108,7 +108,7 @@ add("C09",
 add("C10",
     "property-based testing: Hypothesis @given for shapes / elementwise-equals-scalar / aliases, "
     "and a Hypothesis rule-based state machine over call histories with bit-identity, memo and "
-    "fresh-clone invariants (histories replayed by a plain interpreter)",
+    "fresh-clone invariants (histories replayed by a plain interpreter); enumerated families of long vectors and of 2-d / 3-d arrays beyond 1e4 entries",
     "Exploration: every generated array shape (0-d..3-d, size-0 and size-1 axes) gives results of "
     "the documented shape whose elements equal the scalar calls; scalar inputs give plain scalars; "
     "over generated histories of up to 30 public calls (incl. random bootstrap calls) on one "
@@ -137,7 +137,7 @@ add("C11",
 add("C12",
     "property-based testing: Hypothesis @given with a triple-multiset / filtered-data reference "
     "model, differential per-group vs overall, and a Hypothesis state machine over swap / "
-    "resample / index / group_cm histories",
+    "resample / index / group_cm histories; enumerated family of group_names given as a subset in a narrower dtype",
     "Exploration: the multiset of (score, group, class) triples is tracked through construction "
     "(3 routes), swap and all nine sampling mode x stratification combinations; per-group "
     "matrices equal counting on the filtered input and sum to the overall matrix; group name "
@@ -151,7 +151,7 @@ add("C12",
 add("C13",
     "property-based testing: Hypothesis-generated replicate arrays; independent re-implementation "
     "of the documented quantile/BC/BCa formulas as reference, plus metamorphic corollaries "
-    "(NaN rows, permutation, affine maps, nesting, per-component independence)",
+    "(NaN rows, permutation, affine maps, nesting, per-component independence) and an enumerated family of replicates scaled by powers of two down to 2^-346",
     "Exploration: limits agree with a stdlib-only re-implementation of the documented formulas "
     "to 1e-9*scale for every generated (replicates, estimate, alpha, method), including constant, "
     "tied, skewed, outlier-laden and NaN-containing data and estimates outside the range; derived "
